@@ -2,7 +2,7 @@
 # runs every seeded change against the check of its own property (and extra ones given in seeded/<id>/checks), prints a table
 cd /verif
 for d in seeded/*/; do
-  s=$(basename $d); p=${s%-*}; p=${p%b}
+  s=$(basename $d); p=$(echo $s | cut -c1-3)
   extra=""; [ -f $d/checks ] && extra=$(cat $d/checks)
   out=$(tools/seed_run.sh /verif/$d $p $extra 2>&1)
   if echo "$out" | grep -q "PATCH DOES NOT APPLY"; then echo "$s | does-not-apply"; continue; fi
